@@ -94,6 +94,25 @@ def _sweep():
                     ok = ok and (abs(sum(o.values()) - 1) < 1e-5 if mode == 'sum' else abs(max(o.values()) - min(o.values()) - 1) < 1e-5)
                 if not ok:
                     bad.append((mode, f"{na},{nb}:{(a, b, c)}", f"normalised {out}"))
+        # the same at very small and very large magnitudes: a non-zero normaliser, however tiny, normalises (float kinds only)
+        for scale in (1e-10, 1e-13, 1e12):
+            for a, b, c in ((1, 3, -2), (-1, 2, 4), (5, 5, 1)):
+                for mk_name, mk in (('float', float), ('np.float64', np.float64)):
+                    vals = {'a': mk(a * scale), 'b': mk(b * scale), 'c': mk(c * scale)}
+                    n += 1
+                    with warnings.catch_warnings():
+                        warnings.simplefilter('ignore')
+                        try:
+                            out = B._normalize_importance_values(dict(vals), mode=mode)
+                        except Exception as ex:   # noqa
+                            bad.append((mode, f"{mk_name} x {scale}:{(a, b, c)}", f"raised {ex!r}"))
+                            continue
+                    o = {k: float(v) for k, v in out.items()}
+                    factor = (a + b + c) if mode == 'sum' else max(a, b, c) - min(a, b, c)
+                    ok = all(math.isfinite(v) for v in o.values()) and all(abs(o[k] * factor - float(vals[k]) / scale) < 1e-5 for k in o)
+                    ok = ok and (abs(sum(o.values()) - 1) < 1e-5 if mode == 'sum' else abs(max(o.values()) - min(o.values()) - 1) < 1e-5)
+                    if not ok:
+                        bad.append((mode, f"{mk_name} x {scale}:{(a, b, c)}", f"normalised {out}"))
     return n, bad
 
 
